@@ -363,6 +363,10 @@ def long_number_candidates(rng, n):
         if rng.random() < 0.3:
             s_ += "i"
         out.append(s_)
+    # every digit and hex letter at the first and the second digit position of every base (digit-class tables)
+    for pre in ("0b", "0B", "0o", "0O", "0x", "0X", "0", "", "0b1", "0o1", "0x1", "01", "1", "0b_", "0x.", "1.", "1e", "0x1p"):
+        for ch in "0123456789abcdefABCDEFgG_":
+            out += [pre + ch, pre + ch + "1", pre + ch + "i"]
     out += ["1\u0663", "12\u0663\u0664", "4\uff12", "0\U0001D7CE", "1.\u0663", "1e\u0663", "0x\uff11", "7\u0667\n", "\u0663", "1_\u0663"]
     out += ["0x15e", "0xBadFace", "0XE", "0xdead_beef", "0x1e+2", "0x1p-2", "0xep1", "0x.ep1", "1e5", "0e0", "0777", "0o7_7", "0b1_0",
             "1_000.000_1e+1_0", "0x_1F", "0_7", "09.5", "09e1", "089i", "0x1P1i", "1__0", "1_", "0x1.p1", "0x1.8p", ".5e-3i"]
@@ -833,7 +837,8 @@ check_c06 = parser_check(
     "generated valid programs, 1-3 token deletions/insertions/duplications/swaps/replacements of them, token soup; for every ACCEPTED "
     "input the scanner's token dump (hook) is compared with the leaves of the returned tree (same text, same offset, each once, in order), "
     "the bracket tokens must nest and the first token must be `package`; non-trivial = accepted inputs",
-    lambda run: fam_valid_mut_soup(200, 6, 1500, styles=("random", "dense"))(run) + pfam.text_mutants() + order_cases(), nontrivial=accepted)
+    lambda run: fam_valid_mut_soup(200, 6, 1500, styles=("random", "dense"))(run) + pfam.text_mutants() + order_cases() +
+    [pfam.Case(c.src, "F-params") for c in pfam.param_cases()], nontrivial=accepted)
 
 check_c11 = parser_check(
     "C11", "theories/props/C11.v", "comments", oracle_comments,
@@ -1198,6 +1203,10 @@ def c03_extra(run, fam, gv, gm):
     tp = pfam.type_position_cases()
     impl_t, mod_t, _ = fam.exec(tp)
     fam.judge(tp, impl_t, mod_t, [None] * len(tp), "shape", pfam.oracle_type_position, "channel types in every type position")
+    # parameter lists: every form of item, in pairs and triples, named / grouped / variadic, in six signature places
+    pr = pfam.param_cases()
+    impl_r, mod_r, _ = fam.exec(pr)
+    fam.judge(pr, impl_r, mod_r, [None] * len(pr), "shape", pfam.oracle_params, "parameter lists")
     # derivations are compositional: an expression has the same derivation wherever it stands, and a statement
     # list is the list of its statements' derivations
     ex = [pfam.Case(e, "F-expr-alone") for e in FRAG_EXPRS]
